@@ -697,20 +697,80 @@ def run_impl(cases, chunks=None):
     lines = [json.dumps({'m': c['py']['call'], 'args': c['py']['args']}) for c in cases]
     if not lines:
         return []
-    # stripe the cases over the workers (heavy entry points are adjacent in the list)
-    k = max(1, min(chunks, len(lines)))
-    parts = [lines[i::k] for i in range(k)]
+    # Stripe the cases over the workers (heavy entry points are adjacent in the list).  Cases that share a
+    # `group` run consecutively in ONE runner process, i.e. on ONE library instance (state carried across calls).
+    groups, seen = [], {}
+    for i, c in enumerate(cases):
+        g = c.get('group', ('single', i))
+        if g not in seen:
+            seen[g] = len(groups)
+            groups.append([])
+        groups[seen[g]].append(i)
+    k = max(1, min(chunks, len(groups)))
+    order = [[i for grp in groups[j::k] for i in grp] for j in range(k)]
+    parts = [[lines[i] for i in o_] for o_ in order]
     with ThreadPoolExecutor(max_workers=k) as ex:
         outs = list(ex.map(lambda part: C.run_py('proplib_runner.py', part, timeout=3000, args=(os.path.join(GEN, 'PropLib.index.json'),)), parts))
     res = [None] * len(lines)
-    for j, (part, (o, err)) in enumerate(zip(parts, outs)):
+    for idxs, part, (o, err) in zip(order, parts, outs):
         if o and o[0].startswith('INIT'):
             INIT_STATUS.add(o[0])
             o = o[1:]
         if len(o) != len(part):
             o = o + ['CRASH ' + (err.strip().split('\n')[-1] if err.strip() else 'runner died')] * (len(part) - len(o))
-        res[j::k] = o
+        for i, line in zip(idxs, o):
+            res[i] = line
     return res
+
+
+# ---- near-duplicate requests on one instance: the same call tree with every pattern varied uniformly ----------
+VARIATIONS = ('ex', 'ex', 'mu', 'ev', 'sym', 'expand', 'constrain')
+
+
+def vary(p, T):
+    """apply variation T uniformly to a surface pattern; shapes (Imp / bot / notation structure) are preserved"""
+    p = totuple(p)
+    k = p[0]
+    if T == 'expand':
+        return expand(p)
+    if k == 'ex':
+        return ('ex', (p[1] + 1) % 4 if T == 'ex' else p[1], vary(p[2], T))
+    if k == 'mu':
+        x = p[1]
+        if T == 'mu' and not (x == 0 and totuple(p[2]) == ('sv', 0)):
+            x = x + 1
+        return ('mu', x, vary(p[2], T))
+    if k == 'ev':
+        return ('ev', (p[1] + 1) % 4) if T == 'ev' else p
+    if k == 'sym':
+        return ('sym', (p[1] + 1) % 3) if T == 'sym' else p
+    if k == 'sv':
+        return p
+    if k == 'mv':
+        if T == 'constrain' and not any(p[2:7]):
+            return ('mv', p[1], (3,), (), (), (), ())
+        return p
+    if k in ('esub', 'ssub'):
+        return (k, vary(p[1], T), p[2], vary(p[3], T))
+    if k in ('bot', 'top'):
+        return p
+    return (k,) + tuple(vary(x, T) for x in p[1:])
+
+
+def vary_tree(py, T):
+    args = []
+    for a in py['args']:
+        if 'p' in a:
+            args.append({'p': vary(a['p'], T)})
+        elif 'ax' in a:
+            args.append({'ax': vary(a['ax'], T)})
+        elif 'd' in a:
+            args.append({'d': [[k_, vary(x, T)] for k_, x in a['d']]})
+        elif 'call' in a:
+            args.append(vary_tree(a, T))
+        else:
+            args.append(a)
+    return {'call': py['call'], 'args': args}
 
 
 USES_GEN = set()
@@ -871,6 +931,7 @@ def run(tier, seed):
             os.remove(os.path.join(C.OUT, f))
     rng = C.rng_for(seed, CID)
     per_method = 32 if tier == 'quick' else 800
+    n_variants = 10 if tier == 'quick' else 200
     t0 = time.time()
 
     # 1. translate + proof stage
@@ -904,7 +965,24 @@ def run(tier, seed):
         for m in idx['methods']:
             for k in range(budget * (4 if m['name'] in INSTANTIATING else 1)):
                 py, ml, exp, sub = G.call(m['name'], 0, 1 + (k % 3))
-                cases.append(dict(py=py, ml=ml, expect=exp, sub=sub, origin=f'gen:{m["name"]}:{k}'))
+                cases.append(dict(py=py, ml=ml, expect=exp, sub=sub, origin=f'gen:{m["name"]}:{k}', group=(m['name'], k)))
+                if k < n_variants and m['params']:
+                    # the same request again with every pattern varied uniformly (bound-variable ids, element variables,
+                    # symbols, notation vs expansion, a constraint): must be answered for the NEW arguments although it
+                    # runs right after the first on the same library instance
+                    for _try in range(3):
+                        T_ = rng.choice(VARIATIONS)
+                        vt = vary_tree(py, T_)
+                        if json.dumps(vt) != json.dumps(py):
+                            break
+                    else:
+                        continue
+                    try:
+                        cases.append(dict(py=vt, ml=ml_of(vt, lib), expect=oracle_of(vt, lib), sub=subcases(vt, lib),
+                                          origin=f'variant[{T_}]:{m["name"]}:{k}', group=(m['name'], k)))
+                        R.hist['variant:' + T_] = R.hist.get('variant:' + T_, 0) + 1
+                    except (ValueError, KeyError):
+                        pass
         impl = run_impl(cases)
         model = C.run_lines_parallel(mlref, [c['ml'] for c in cases]) if ok else [None] * len(cases)
         if ok and len(model) != len(cases):
@@ -969,7 +1047,12 @@ def run(tier, seed):
             blamed_methods.add(c2['py']['call'])
             if mo2 is None and ok and c2.get('ml'):
                 mo2 = C.run_lines(mlref, [c2['ml']])[0]
+            prev = [x['py'] for x in cases if x.get('group') is not None and x.get('group') == c.get('group') and x is not c
+                    and cases.index(x) < cases.index(c)] if c in cases else []
             R.violation(sig, desc, dict(method=c2['py']['call'], python_call=c2['py'], model_request=c2.get('ml'),
+                                        preceded_by_on_same_instance=prev if c2 is c else [],
+                                        state_dependent=('the same request answered correctly on a fresh instance'
+                                                         if prev and c2 is c and run_impl([dict(py=c['py'])], chunks=1)[0] != i else None),
                                         expected_conclusion_hex=hexp(c2['expect']) if c2.get('expect') else None,
                                         implementation=i2, model=mo2, found_in=c['origin'],
                                         proof_stage_ok=not proof_broken,
@@ -1063,8 +1146,12 @@ def replay(path):
             print('no concrete input in this replay file:', json.dumps(d.get('replay', d))[:1500])
             continue
         case = dict(py=py, ml=ml_of(py, lib), expect=oracle_of(py, lib))
+        prev = d.get('replay', {}).get('preceded_by_on_same_instance') or [] if 'cases' not in d else []
+        for q in prev:
+            print('first, on the same instance:', json.dumps(q)[:800])
         print('call          :', json.dumps(py)[:1500])
-        out = run_impl([case], chunks=1)
+        seq = [dict(py=q, group='replay') for q in prev] + [dict(case, group='replay')]
+        out = run_impl(seq, chunks=1)[-1:]
         print('implementation:', out[0])
         mo = C.run_lines(mlref, [case['ml']])[0] if ok else None
         print('model         :', mo)
